@@ -1,6 +1,7 @@
 package main
 
 import (
+	"path/filepath"
 	"os"
 	"fmt"
 	"go/constant"
@@ -39,6 +40,8 @@ type sval struct {
 
 type Frame struct {
 	foldObls     map[*Spec]*Obligation
+	rgPoints     int
+	inStep       int
 	x            *Exec
 	fn           *ssa.Function
 	id           int
@@ -504,6 +507,13 @@ func (fr *Frame) byteFacts(region Term, off Term, w int) {
 }
 
 func (fr *Frame) load(a Addr, in ssa.Instruction) Term {
+	if (a.kind == aMem || a.kind == aPtr) && in != nil {
+		fr.interfere(in)
+	}
+	return fr.load0(a, in)
+}
+
+func (fr *Frame) load0(a Addr, in ssa.Instruction) Term {
 	c := fr.c()
 	switch a.kind {
 	case aCell:
@@ -572,6 +582,41 @@ func (fr *Frame) loadFacts(t types.Type, v Term) {
 }
 
 func (fr *Frame) store(a Addr, v Term, vt types.Type, in ssa.Instruction) {
+	if (a.kind == aMem || a.kind == aPtr) && in != nil && fr.top {
+		fr.interfere(in)
+		if fr.inStep == 0 {
+			for _, cl := range fr.rgClauses("bystep") {
+				if cl.Callee != "" || len(cl.Locs) == 0 {
+					continue
+				}
+				// the store is covered by a step lemma when it writes inside the declared range while the lemma's
+				// precondition holds: a w-byte store is w consecutive byte steps, each an instance of the lemma
+				// (whose postcondition re-establishes its precondition), and the step relation is transitive.
+				fr.stepByLemma(cl, in, "store")
+				li := fr.evalLoc(cl.Locs[0], fr.cur, fr.loopVars(fr.cur))
+				var reg, off Term
+				w := 1
+				if a.kind == aPtr {
+					reg, off, w = app("p-reg", a.ptr), app("p-off", a.ptr), widthOf(a.elem)
+				} else {
+					reg, off = a.reg, a.off
+				}
+				pos := fr.x.e.prog.Fset.Position(in.Pos())
+				fr.c().oblige("guarantee", fmt.Sprintf("store at %s:%d writes only inside %s (step lemma %s)", filepath.Base(pos.Filename), pos.Line, cl.Locs[0].String(), cl.Lemma), fmt.Sprintf("contract:%d", cl.Line), cl.Props, fr.cur.reach,
+					and(eq(reg, li.reg), le(li.lo, off), le(add(off, num(int64(w))), li.hi)))
+				fr.inStep++
+				fr.store0(a, v, vt, in)
+				fr.inStep--
+				return
+			}
+		}
+		fr.sharedWrite(in, "store", func() { fr.store0(a, v, vt, in) })
+		return
+	}
+	fr.store0(a, v, vt, in)
+}
+
+func (fr *Frame) store0(a Addr, v Term, vt types.Type, in ssa.Instruction) {
 	c := fr.c()
 	switch a.kind {
 	case aCell:
@@ -1218,7 +1263,144 @@ func hasModifies(ct *Contract) bool {
 
 // ---------- instructions ----------
 
+// ---------- rely / guarantee (interference by other threads at every shared access) ----------
+//
+// A contract with `rely R` / `interference locs` / `guarantee G` clauses is verified under interference:
+// before every access to shared memory (sync/atomic call, load or store through an unsafe pointer or into a
+// slice element) and before every return, the locations `locs` are havocked and the two-state predicate R
+// (old() = the state before the interference) is assumed - any number of steps of the other threads, R being
+// reflexive and transitive. After every write to shared memory (and the ghost updates anchored at it) the
+// two-state predicate G (old() = the state before the write) is proved: it is the other side's rely.
+
+func (fr *Frame) rgClauses(kind string) []*Clause {
+	if !fr.top || fr.contract == nil {
+		return nil
+	}
+	var out []*Clause
+	for _, cl := range fr.contract.Clauses {
+		if cl.Kind == kind && cl.Loop < 0 && fr.x.active(cl) {
+			out = append(out, cl)
+		}
+	}
+	return out
+}
+
+func (fr *Frame) interfere(in ssa.Instruction) {
+	relies := fr.rgClauses("rely")
+	if len(relies) == 0 || fr.inStep > 0 {
+		return
+	}
+	for _, cl := range relies {
+		fr.x.externs[fmt.Sprintf("RELY in %s (interference by other threads at every shared access; it is the other side's proved guarantee): %s", fr.fn.Name(), cl.Text)] = true
+	}
+	prev := fr.cur
+	fr.cur = prev.clone()
+	vars := fr.loopVars(prev)
+	for _, cl := range fr.rgClauses("interference") {
+		for _, loc := range cl.Locs {
+			saved := fr.cur
+			fr.cur = prev
+			fr.havocLoc(loc, prev, saved, vars)
+			fr.cur = saved
+		}
+	}
+	for _, cl := range relies {
+		t := fr.evalSpecBool(cl.Expr, fr.cur, prev, nil)
+		fr.c().assume(imp(fr.cur.reach, t))
+	}
+	fr.rgPoints++
+}
+
+// sharedWrite runs f (one instruction that may write shared memory) and proves the guarantee for that step.
+func (fr *Frame) sharedWrite(in ssa.Instruction, what string, f func()) {
+	gs := fr.rgClauses("guarantee")
+	if len(gs) == 0 || fr.inStep > 0 {
+		fr.inStep++
+		f()
+		fr.inStep--
+		return
+	}
+	before := fr.cur
+	fr.cur = before.clone()
+	fr.inStep++
+	f()
+	fr.inStep--
+	if fr.dead {
+		return
+	}
+	pos := fr.x.e.prog.Fset.Position(in.Pos())
+	for _, cl := range gs {
+		for _, cj := range splitConj(cl.Expr) {
+			fr.proveSpec("guarantee", fmt.Sprintf("guarantee holds for the step %s at %s:%d: %s", what, filepath.Base(pos.Filename), pos.Line, cj.String()), cl, cj, fr.cur, before, nil)
+		}
+	}
+}
+
+// stepByLemma: the precondition of the step lemma holds in the state right before the step
+func (fr *Frame) stepByLemma(cl *Clause, in ssa.Instruction, what string) {
+	var vars map[string]sval
+	if call, ok := in.(*ssa.Call); ok {
+		vars = map[string]sval{}
+		for i, a := range call.Common().Args {
+			vars[fmt.Sprintf("a%d", i)] = sval{t: fr.val(a), typ: a.Type(), sort: sortOf(a.Type())}
+		}
+	}
+	if fr.x.e.cf.Funcs[cl.Lemma] == nil {
+		specFail("bystep: unknown lemma %s", cl.Lemma)
+	}
+	fr.x.externs[fmt.Sprintf("STEP LEMMA in %s: the guarantee of the step '%s' is discharged by lemma %s (verified separately; its precondition is proved before the step)", fr.fn.Name(), what, cl.Lemma)] = true
+	fr.x.lemmasUsed["func:"+cl.Lemma] = true // verified in the same run (added to the function list if missing)
+	pos := fr.x.e.prog.Fset.Position(in.Pos())
+	for _, cj := range splitConj(cl.Expr) {
+		se := fr.specEnvFor(fr.cur, fr.entry, fr.mergeVars(vars), true)
+		for n := range vars {
+			se.bound[n] = true
+		}
+		fr.proveSpecEnv("guarantee", fmt.Sprintf("precondition of step lemma %s holds before the step %s at %s:%d: %s", cl.Lemma, what, filepath.Base(pos.Filename), pos.Line, cj.String()), cl, cj, se)
+	}
+}
+
+func isAtomicCall(in ssa.Instruction) bool {
+	c, ok := in.(*ssa.Call)
+	if !ok {
+		return false
+	}
+	return strings.HasPrefix(calleeName(c.Common()), "sync/atomic.")
+}
+
 func (fr *Frame) instr(in ssa.Instruction) {
+	if fr.top && fr.contract != nil && len(fr.rgClauses("rely"))+len(fr.rgClauses("guarantee")) > 0 {
+		if isAtomicCall(in) {
+			fr.interfere(in)
+			name := calleeName(in.(*ssa.Call).Common())
+			if strings.HasPrefix(name, "sync/atomic.Load") {
+				// an atomic read writes nothing: no guarantee to prove for this step
+				fr.inStep++
+				fr.instr0(in)
+				fr.inStep--
+				return
+			}
+			for _, cl := range fr.rgClauses("bystep") {
+				call := in.(*ssa.Call)
+				if cl.Callee != "" && strings.HasSuffix(name, cl.Callee) && fr.callOrdinal(call, cl.Callee) == cl.N {
+					fr.stepByLemma(cl, in, name)
+					fr.inStep++
+					fr.instr0(in)
+					fr.inStep--
+					return
+				}
+			}
+			fr.sharedWrite(in, name, func() { fr.instr0(in) })
+			return
+		}
+		if _, ok := in.(*ssa.Return); ok {
+			fr.interfere(in)
+		}
+	}
+	fr.instr0(in)
+}
+
+func (fr *Frame) instr0(in ssa.Instruction) {
 	c := fr.c()
 	switch s := in.(type) {
 	case *ssa.DebugRef:
@@ -2235,6 +2417,9 @@ func (fr *Frame) ghostAtCall(call *ssa.Call, res []Term) {
 	name := calleeName(call.Common())
 	for _, ac := range fr.contract.AtCalls {
 		if ac.Hint || ac.AtReturn || !strings.HasSuffix(name, ac.Callee) || fr.callOrdinal(call, ac.Callee) != ac.N {
+			continue
+		}
+		if !fr.x.active(&Clause{Props: ac.Props}) {
 			continue
 		}
 		vars := map[string]sval{}
